@@ -101,6 +101,7 @@ ChkPayFee(o, e) ==
   ELSE (IF IsInt(e.msat) /\ e.msat > 3 * o.cfg.open_fee_sat * 1000 THEN {"C12|fee-over-3x-estimate"} ELSE {})
        \cup (IF IsInt(e.msat) /\ IsInt(o.cfg.spendable_msat) /\ o.cfg.spendable_msat < r.amount * 1000 + e.msat THEN {"C12|fee-paid-without-capacity"} ELSE {})
        \cup (IF r.cur = "State_SwapCanceled" THEN {"C15|pay-after-cancel|out_sender|fee"} ELSE {})
+       \cup (IF r.has_agr /\ r.premium > r.limit THEN {"C12|fee-paid-although-premium-over-limit"} ELSE {})
        \cup (IF e.payee # r.peer THEN {"C24|fee-payee"} ELSE {})
 
 \* C07 C08 C12 C15: own wallet funds and broadcasts the opening transaction
@@ -126,7 +127,7 @@ ChkSend(o, e) ==
   \cup (IF e.kind = "coop_close" /\ Claim(o, s).status \in {"inflight", "succeeded"}
         THEN {"C06|coop_close-while-payment-" \o Claim(o, s).status \o "|" \o r.role \o "|" \o r.prev \o ">" \o r.cur
                 \o (IF r.preimage THEN "|preimage-in-record" ELSE "|outcome-unknown-to-node")
-                \o (IF o.crashes THEN "|after-crash" ELSE "") \o (IF o.faults THEN "|after-service-failure" ELSE "")} ELSE {})
+                \o (IF o.crashes THEN "|after-crash" ELSE IF o.faults THEN "|after-service-failure" ELSE "")} ELSE {})
   \cup (IF e.kind = "coop_close" /\ Known(o, s) /\ r.role \notin Takers THEN {"C23|coop_close-by-maker"} ELSE {})
   \* C13: the Liquid anchor is on disk before the pubkey leaves
   \cup (IF ((e.kind = "swap_out_request" /\ r.role = "out_sender") \/ (e.kind = "swap_in_agreement" /\ r.role = "in_receiver"))
@@ -157,7 +158,7 @@ ChkSend(o, e) ==
         THEN {"C22|retransmit-in|" \o r.cur} ELSE {})
 
 \* C07a / C10 / C09 / C26 / C16 at quiescence
-NonTerminalDisk(o) == {d \in o.disk : d.cur \notin Terminal /\ d.cur # ""}
+NonTerminalDisk(o) == {d \in o.disk : d.cur \notin Terminal}
 ChkQuiesce(o, e, act, disk) ==
   LET st == o.step
       tgtA(x) == {a \in x : a.sid = st.sid}
